@@ -2,14 +2,14 @@ SPECIFICATION MCSpec
 CONSTANTS
   PermuteModules = FALSE
   NB0 = {0, 1, 2}
-  Variants = {"none", "same", "ext", "extm0", "trunc", "swap", "rename", "recv", "ptype", "pcount", "ret", "cc", "argname", "vis", "doc"}
+  Variants = {"none", "same", "ext", "extm0", "recv"}
   WithB1 = {FALSE, TRUE}
   B1Vft = {FALSE, TRUE}
-  Clash = {"no", "derived"}
+  Clash = {"no"}
   DDs = {"none", "plain", "diamond"}
-  DDVft = {FALSE, TRUE}
+  DDVft = {FALSE}
   Ptrs = {4, 8}
-  Split = {FALSE}
+  Split = {TRUE}
 INVARIANTS Replay
 CHECK_DEADLOCK FALSE
 VIEW View
